@@ -40,6 +40,12 @@ def sizes64(seed):
         s.update(((1 << k) - 1, 1 << k, (1 << k) + 1))
     for i in range(3):
         s.add(int.from_bytes(B.filler(seed, 8, 100 + i), 'little'))
+    # size constants the code under test has and the pinned tree had not (vlib/lits.py)
+    from vlib import lits
+    for v in lits.new('oslo_utils/imageutils/format_inspector.py')['ints']:
+        for w in (v - 1, v, v + 1, v * 512, v << 20):
+            if 0 <= w < 1 << 64:
+                s.add(w)
     return sorted(s)
 
 
